@@ -300,6 +300,10 @@ pub struct RawNode<T: Storage> {
     records: VecDeque<ReadyRecord>,
     // Index which the given committed entries should start from.
     commit_since_index: u64,
+    // Number of the latest Ready that carried a term or vote change.
+    hs_change_number: u64,
+    // The largest Ready number that has been reported as persisted.
+    persisted_number: u64,
 }
 
 impl<T: Storage> RawNode<T> {
@@ -315,6 +319,8 @@ impl<T: Storage> RawNode<T> {
             max_number: 0,
             records: VecDeque::new(),
             commit_since_index: config.applied,
+            hs_change_number: 0,
+            persisted_number: 0,
         };
         rn.prev_hs = rn.raft.hard_state();
         rn.prev_ss = rn.raft.soft_state();
@@ -515,6 +521,7 @@ impl<T: Storage> RawNode<T> {
         if hs != self.prev_hs {
             if hs.vote != self.prev_hs.vote || hs.term != self.prev_hs.term {
                 rd.must_sync = true;
+                self.hs_change_number = self.max_number;
             }
             rd.hs = Some(hs);
         }
@@ -552,7 +559,11 @@ impl<T: Storage> RawNode<T> {
 
         // Leader can send messages immediately to make replication concurrently.
         // For more details, check raft thesis 10.2.1.
-        rd.is_persisted_msg = raft.state != StateRole::Leader;
+        // The exception is a leader whose current term or vote has not been persisted yet:
+        // a node that is the only voter becomes leader without a vote round, so nothing
+        // guarantees that its new term is durable before it starts to send as leader.
+        rd.is_persisted_msg =
+            raft.state != StateRole::Leader || self.hs_change_number > self.persisted_number;
         rd.light = self.gen_light_ready();
         self.records.push_back(rd_record);
         rd
@@ -624,6 +635,9 @@ impl<T: Storage> RawNode<T> {
     /// [`Self::has_ready`] and [`Self::ready`] should be called later to handle further
     /// updates that become valid after ready being persisted.
     pub fn on_persist_ready(&mut self, number: u64) {
+        if number > self.persisted_number {
+            self.persisted_number = number;
+        }
         let (mut index, mut term) = (0, 0);
         let mut snap_index = 0;
         while let Some(record) = self.records.front() {
